@@ -295,8 +295,14 @@ func (f *FuncCtx) selector(st *State, x *ast.SelectorExpr) Term {
 	if sel.Kind() != types.FieldVal {
 		unsup("method value at %s", f.pos(x))
 	}
+	if n, ok := types.Unalias(f.typeOf(x.X)).(*types.Named); ok && isLoggerPkg(n.Obj().Pkg()) {
+		// configuration of a logger (e.g. AstLog.Level): T-LOG, an arbitrary value
+		f.assumed["T-LOG: logger calls have no effect on verified state and do not panic"] = true
+		return f.havocVal(st, "logcfg", f.typeOf(x))
+	}
 	ref, owner, path, ft := f.fieldLoc(st, x)
 	hn, hs := f.w.fieldHeap(owner, path, ft, f.bv)
+	f.impure = append(f.impure, "reads heap field "+hn)
 	es := hs[len("(Array Int ") : len(hs)-1]
 	t := Term{S: "(select " + f.heapTerm(st, hn, hs) + " " + ref.S + ")", Sort: es, GoT: ft}
 	if strings.HasPrefix(es, "Slice_") || f.useAlloc {
@@ -856,6 +862,7 @@ func (f *FuncCtx) allocRef(st *State, hint string, t types.Type) Term {
 }
 
 func (f *FuncCtx) heapStore(st *State, hn, hs, ref, val string) {
+	f.impure = append(f.impure, "writes heap "+hn)
 	cur := f.heapTerm(st, hn, hs)
 	nt := "(store " + cur + " " + ref + " " + val + ")"
 	if len(nt) > 200 {
@@ -868,6 +875,9 @@ func (f *FuncCtx) heapStore(st *State, hn, hs, ref, val string) {
 
 func (f *FuncCtx) composite(st *State, x *ast.CompositeLit, addr bool) Term {
 	t := types.Unalias(f.typeOf(x))
+	if namedPath(t) == "reflect.Value" && len(x.Elts) == 0 && !addr {
+		return Term{S: "rv_zero", Sort: SRV, GoT: t}
+	}
 	switch u := t.Underlying().(type) {
 	case *types.Struct:
 		if !addr {
